@@ -260,10 +260,10 @@ Proof.
   unfold build_reader. cbv zeta.
   generalize (match samples with SamplesAll => map_from_all cols | SamplesList l => build_map l end).
   intros m. destruct m as [|e m0]; [intros Hb; discriminate|].
+  destruct (map_shape (e :: m0)) as [from|] eqn:Hms; [|intros Hb; discriminate].
   destruct (find _ _); [intros Hb; discriminate|].
   destruct project as [p|].
   - set (to' := project_arg_shape p).
-    destruct (map_shape (e :: m0)) as [from|] eqn:Hms; [|intros Hb; discriminate].
     destruct (negb (length from =? length to')) eqn:Hlen; [intros Hb; discriminate|].
     destruct (first_smaller 0 from to') as [[[d f] t]|] eqn:Hfs; [intros Hb; discriminate|].
     destruct (count_of_shape to') as [pto|] eqn:Hcs; [|intros Hb; discriminate].
@@ -277,8 +277,7 @@ Proof.
     + apply (proj2 (cp_map_shape_some _ _ Hms)).
     + exact Hto.
     + exists from. split; [exact Hms|]. rewrite <- Hto. eapply cp_first_smaller_none; eassumption.
-  - destruct (map_shape (e :: m0)) as [sh|] eqn:Hms; [|intros Hb; discriminate].
-    intros Hb. inversion Hb; subst cfg; clear Hb. cbn [r_map r_cols r_pto r_shape].
+  - intros Hb. inversion Hb; subst cfg; clear Hb. cbn [r_map r_cols r_pto r_shape].
     split; [|split; [|split; [|split]]].
     + eapply cp_map_shape_positive; eassumption.
     + now apply cp_map_shape_length.
